@@ -9,6 +9,7 @@ import (
 	"runtime"
 	"strings"
 	"time"
+	"unsafe"
 )
 
 var (
@@ -108,6 +109,9 @@ func vGhostPoolMode(mode int)   {}
 func vGhostExplore(preempt int) {}
 func vGhostExploreOff()         {}
 func vGhostAllocReset()         {}
+func vGhostTrackAllocs()        {}
+func vGhostAsmOOB() int         { return 0 }
+func vGhostPoolViolations() int { return 0 }
 func vGhostAllocMax() int       { return 0 }
 
 func vIteU8(c bool, a, b uint8) uint8 {
@@ -201,4 +205,14 @@ func vObserve(tag string, vals ...any) {
 		}
 	}
 	vObserved = append(vObserved, sb.String())
+}
+
+// vAlign64 returns the offset within b of the first byte whose address is a multiple of 64.
+// In the engine a fresh allocation is modelled at a 64-aligned virtual address, so the offset is 0.
+func vAlign64(b []byte) int {
+	if len(b) == 0 {
+		return 0
+	}
+	a := uintptr(unsafe.Pointer(&b[0]))
+	return int((64 - a%64) % 64)
 }
